@@ -1,3 +1,4 @@
+use syn::ext::IdentExt;
 use syn::punctuated::Punctuated;
 use syn::{Ident, Type};
 
@@ -130,7 +131,9 @@ impl UsesTypeParams for syn::Fields {
 /// Check if an Ident exactly matches one of the sought-after type parameters.
 impl UsesTypeParams for Ident {
     fn uses_type_params<'a>(&self, _options: &Options, type_set: &'a IdentSet) -> IdentRefSet<'a> {
-        type_set.iter().filter(|v| *v == self).collect()
+        // `r#T` and `T` name the same type parameter.
+        let this = self.unraw();
+        type_set.iter().filter(|v| v.unraw() == this).collect()
     }
 }
 
